@@ -825,7 +825,11 @@ def run(ctx):
     # fault leg 2: the log directory is not writable for the uid the logger runs as (appends to the
     # existing files still work): rename / create / remove fail.  root ignores modes -> setpriv
     setpriv = ["setpriv", "--reuid=65534", "--regid=65534", "--clear-groups"]
-    ro_ok = os.geteuid() == 0 and vplib.sh(setpriv + ["true"])[0] == 0
+    # the unprivileged uid must also be able to reach the driver and the scratch tree (it cannot when
+    # /verif is a copy below a 0700 directory such as /root): otherwise the leg is skipped, not failed
+    ro_ok = (os.geteuid() == 0 and vplib.sh(setpriv + ["true"])[0] == 0
+             and vplib.sh(setpriv + ["test", "-x", bins["c19"]])[0] == 0
+             and vplib.sh(setpriv + ["test", "-x", root])[0] == 0)
     if ro_ok:
         for h in ro:
             prepare_readonly(h, root)
@@ -837,7 +841,7 @@ def run(ctx):
             for h in ro:
                 os.chmod(log_dir(h, root), 0o755)
     else:
-        ctx.notes.append("read-only-directory fault leg skipped: setpriv to an unprivileged uid is not available here")
+        ctx.notes.append("read-only-directory fault leg skipped: setpriv to an unprivileged uid is not available here, or that uid cannot reach the driver / scratch tree")
     lines, spans = [], []
     for h in dumps:
         s = dump_script(h, root)
